@@ -28,10 +28,11 @@ let handle line =
     let dn = boost_day_number (zatom y) (zatom m) (zatom d) in
     [id ^ " " ^ (match format_date (hexs ofmt) dn with Some r -> (match hex_of_str r with "" -> "-" | h -> h) | None -> "?")]
   | L [A "e"; A id; cy; cm; cd; L evs] ->
-    (* the current date at every transaction: events (y N) | end | q *)
+    (* the current date at every transaction: events (y N) | end | q | fb (an included file begins) | fe (it ends) *)
     let ev = List.map (function
-        | L [A "y"; n] -> JYear (zatom n) | A "end" -> JEnd | A "q" -> JQuery | _ -> failwith "event") evs in
-    let st = { es_cur = ((zatom cy, zatom cm), zatom cd); es_stack = [] } in
+        | L [A "y"; n] -> JYear (zatom n) | A "end" -> JEnd | A "q" -> JQuery
+        | A "fb" -> JFileBegin | A "fe" -> JFileEnd | _ -> failwith "event") evs in
+    let st = { es_cur = ((zatom cy, zatom cm), zatom cd); es_stack = []; es_outer = [] } in
     [id ^ " " ^ String.concat ";" (List.map (fun ((y, m), d) ->
          Printf.sprintf "%s,%s,%s" (string_of_z y) (string_of_z m) (string_of_z d)) (run_events st ev))]
   | _ -> failwith "case"
